@@ -71,10 +71,10 @@ variables
   aliveAtClose = {},                           \* players alive when close() returned
   openAtClose = {},                            \* device streams not closed when close() returned
   faulted = [t \in Players |-> FALSE],         \* the player's run loop was left by an exception
-  userStopped = [t \in Players |-> FALSE],
+  userStopped = [t \in Players |-> FALSE],     \* (ghost) the CALLER asked this player to stop (not close() itself)
   lateW = [t \in Players |-> 0],               \* (ghost) chunks written after the stop message was set
   noMore = [t \in Players |-> FALSE],          \* (ghost) the stop message came between a write and the next start_stream
-  closes = 0;                                  \* completed close() calls     \* (ghost) the CALLER asked this player to stop (not close() itself)
+  closes = 0;                                  \* completed close() calls
 
 define {
   Started      == {t \in Players : started[t]}
@@ -983,6 +983,22 @@ WaitsForAll == (closed /\ Wait) => \A t \in Started : userStopped[t] \/ faulted[
 \* was past its write (testing the flags, stopping its stream, parked in wait, just woken) writes nothing more
 StopIsPrompt == StopWakes => \A t \in Players : lateW[t] <= 1 /\ (noMore[t] => lateW[t] = 0)
 SecondCloseIsNoOp == pc[MainId] = "Done" => terminated = 1
+
+---------------------------------------------------------------------------
+(* Refinement: the observable projection of this model is a behaviour of the property-level          *)
+(* specification AudioObs (backend calls, thread life, the caller's stop / close / play only).        *)
+CloseLabels == {"c0", "c1", "c2", "c3", "c3r", "c3s", "c4", "cs1", "cs2", "cs3", "cs4", "c7", "c8", "c8a", "c8j",
+                "c9", "c10"}
+ObsMap == [ost   |-> sstate,
+           wr    |-> written,
+           th    |-> [t \in Players |-> IF ~started[t] THEN "new" ELSE IF alive[t] THEN "running" ELSE "ended"],
+           ustop |-> {t \in Players : userStopped[t]},
+           ufault |-> {t \in Players : faulted[t]},
+           cl    |-> IF pc[MainId] \in CloseLabels THEN (IF closes = 0 THEN "closing" ELSE "reclosing")
+                     ELSE (IF closes = 0 THEN "no" ELSE "closed"),
+           term  |-> terminated]
+Obs == INSTANCE AudioObs WITH obs <- ObsMap
+ObsRefined == Obs!ObsSpec
 
 \* chunk-count vectors for the configurations (cfg files cannot write tuples)
 Chunks22  == <<2, 2>>
